@@ -485,6 +485,13 @@ def install(eng, check_tags=None):
             for t in ts:
                 e = e + z3.If(_rg(eng, st, "Timer.armed", t), 1, 0)
             return VInt(simp(e))
+        if name == "n_resolves":
+            return VInt(sum(1 for ev in st.events if ev[0] == "callee" and ev[1] == "_connect_resolve_host"))
+        if name == "n_socket_connects":
+            return VInt(sum(1 for ev in st.events if ev[0] == "callee" and ev[1] == "_connect_socket_connect"))
+        if name == "msg_decoded":
+            # process_packet got as far as building the message object for this type number
+            return VBool(any("msg" in st.heap[oid].f for oid in st.frames if oid in st.heap))
         if name == "opened_socket":
             return VBool(any(ev[0] == "new_socket" for ev in st.events))
         if name == "decode_failed":
@@ -1466,7 +1473,7 @@ def install_async(eng):
             s.labels = dict(s.labels)
             s.labels["seg"] = s.clone()
             s.labels["seg"].labels = {}
-            s.events = s.events + [("cut", "callee")]
+            s.events = s.events + [("cut", "callee"), ("callee", c.target.split(".")[-1])]
     eng.hooks["after_apply"] = after_apply
 
     def lib_awaitable(name, outcomes):
